@@ -22,13 +22,13 @@ import (
 func init() { register("C16", "model_checking", checkC16) }
 
 type mcProcRun struct {
-	Proc     int       `json:"proc"`
+	Proc     int         `json:"proc"`
 	Ops      [][]mcw.Op  `json:"ops"`
-	CrashAt  int64     `json:"crash_at,omitempty"`
+	CrashAt  int64       `json:"crash_at,omitempty"`
 	Faults   []mcw.Fault `json:"faults,omitempty"`
-	MaxDelay string    `json:"max_delay,omitempty"`
-	Seed     int64     `json:"seed,omitempty"`
-	KillMs   int       `json:"kill_after_ms,omitempty"` // driver-side kill -9 (asynchronous)
+	MaxDelay string      `json:"max_delay,omitempty"`
+	Seed     int64       `json:"seed,omitempty"`
+	KillMs   int         `json:"kill_after_ms,omitempty"` // driver-side kill -9 (asynchronous)
 }
 
 type mcScript struct {
@@ -42,7 +42,7 @@ type mcScript struct {
 
 type mcTrace struct {
 	ID     string           `json:"id"`
-	Ev     []mcw.Event        `json:"ev"`
+	Ev     []mcw.Event      `json:"ev"`
 	Final  []map[string]any `json:"final"`
 	Script *mcScript        `json:"-"`
 	UpTo   int              `json:"-"`
@@ -319,9 +319,9 @@ func checkC16(r *kit.Run) {
 	// ---- 2. crash-point replay: 1 process, 1 goroutine ----
 	nf := 3
 	opSeqs := map[string][][]mcw.Op{
-		"fetch":        {{{Op: "fetch", V: 1}}},
-		"fetch-mod":    {{{Op: "fetch", V: 1}, {Op: "modfile", V: 1}}},
-		"mod-fetch":    {{{Op: "modfile", V: 1}, {Op: "fetch", V: 1}, {Op: "fetch", V: 1}}},
+		"fetch":     {{{Op: "fetch", V: 1}}},
+		"fetch-mod": {{{Op: "fetch", V: 1}, {Op: "modfile", V: 1}}},
+		"mod-fetch": {{{Op: "modfile", V: 1}, {Op: "fetch", V: 1}, {Op: "fetch", V: 1}}},
 	}
 	type job struct{ s *mcScript }
 	var jobs []job
